@@ -79,6 +79,7 @@ type Engine struct {
 	refComp    map[string]bool
 	attached   map[*Clause]bool
 	detached   []string
+	inlineCon  *Contract
 }
 
 type sortFact struct {
@@ -163,6 +164,7 @@ type frame struct {
 	ghostFramed  bool
 	labels       map[string]*Env
 	callOrd      map[ssa.Instruction]string
+	callCon      *Contract // contract of an inlined function: only its call-site clauses apply
 }
 
 func (e *Engine) ob(f *frame, kind, label string, tags []string, pc, cond string, pos token.Pos) {
@@ -469,6 +471,10 @@ func (e *Engine) exec(fn *ssa.Function, args []Val, binds []Val, pc string, heap
 func (e *Engine) execP(parent *frame, fn *ssa.Function, args []Val, binds []Val, pc string, heap *Heap, prefix string, top bool, depth int, con *Contract, tags, safety []string) ([]Val, string, *Heap, *frame) {
 	f := &frame{e: e, fn: fn, vals: map[ssa.Value]Val{}, pcs: map[*ssa.BasicBlock]string{}, heaps: map[*ssa.BasicBlock]*Heap{},
 		prefix: prefix, entry: heap.clone(), args: args, con: con, top: top, depth: depth, tags: tags, safety: safety, parent: parent, labels: map[string]*Env{}}
+	if con == nil && e.inlineCon != nil {
+		f.callCon = e.inlineCon
+	}
+	e.inlineCon = nil
 	for i, p := range fn.Params {
 		f.vals[p] = args[i]
 	}
